@@ -253,6 +253,31 @@ def run(tier, seed, t0):
             viols.append(("abi:spqlios-asm-offsets", {"expected": "coefsC@0 proc@8 Ns2@8 data@0", "got": o[-600:]}, None))
         else:
             samples.append({"spqlios_asm_offsets(coefsC,proc,Ns2,data)": o.split()})
+        # (v) a C99 program (-O0) that reaches every variant only through dlopen/dlsym: load, generate a key set, evaluate and
+        # decrypt gates, release, unload; variant after variant, two variants at once (one on a second thread), the first again
+        cdir0 = os.path.join(vbuild.VERIF, "harness", "c20")
+        exe = os.path.join(tmp, "c20_dl")
+        rc, o = sh("gcc -std=c99 -O0 -g -I%s %s -o %s -ldl -lpthread" % (inc, os.path.join(cdir0, "c20_dl.c"), exe))
+        if rc:
+            viols.append(("abi:c-program-using-dlopen-does-not-compile", {"output": o[-1500:]}, None))
+        else:
+            for fl in ("optim", "debug"):
+                order = [libs[(fl, be)] for be in vbuild.BACKENDS if (fl, be) in libs]
+                if fl == "debug":
+                    order = order[::-1][:2] + [libs[("optim", "spqlios-fma")]]      # debug variants, and a debug and an optim variant together
+                try:
+                    r = subprocess.run([exe] + order, stdout=subprocess.PIPE, stderr=subprocess.STDOUT, text=True, timeout=1800)
+                    rc2, o2 = r.returncode, r.stdout
+                except subprocess.TimeoutExpired:
+                    inconclusive.append("the dlopen program timed out (%s)" % fl)
+                    continue
+                steps = [ln for ln in o2.splitlines() if " wrong of 32" in ln]
+                decisions += len(steps)
+                cells["dlopen-program:%s:%d-load-use-unload-steps" % (fl, len(steps))] = len(steps)
+                if rc2 != 0 or "RESULT PASS" not in o2:
+                    viols.append(("abi:c-program-using-dlopen:%s" % fl, {"exit_status": rc2, "output": o2[-2500:]}, None))
+                else:
+                    samples.append({"dlopen_program_" + fl: [re.sub(r"/\S*/libtfhe-", "libtfhe-", ln) for ln in steps[:3]]})
     finally:
         subprocess.run("rm -rf %s" % tmp, shell=True)
     # (iv) cross-language object observation on every variant (optim) and two debug variants
